@@ -104,7 +104,7 @@ func (m Matrix[T]) Multiply(other Matrix[T]) Matrix[T] {
 		TransX: m.TransX*other.ScaleX + m.TransY*other.SkewX + other.TransX,
 		SkewY:  m.ScaleX*other.SkewY + m.SkewY*other.ScaleY,
 		ScaleY: m.SkewX*other.SkewY + m.ScaleY*other.ScaleY,
-		TransY: m.TransX*other.ScaleX + m.TransY*other.SkewX + other.TransX,
+		TransY: m.TransX*other.SkewY + m.TransY*other.ScaleY + other.TransY,
 	}
 }
 
